@@ -10,16 +10,20 @@
 (***************************************************************************)
 EXTENDS CorridorOps, FunnelOps
 
-CONSTANTS MaxRects, XMax, Heights
+CONSTANTS MaxRects, XMax, Heights,
+          XShift, YShift \* the corridor's x range is -XShift..XMax-XShift and its top is at -YShift (a door corner at the origin -
+                         \* the zero value of the code's point type - needs negative coordinates; a cfg file cannot say -2)
+XOff == 0 - XShift
+YOff == 0 - YShift
 
 VARIABLES rs, s, e, pc
 vars == <<rs, s, e, pc>>
-None == <<-1, -1>>
+None == <<-1000, -1000>>
 
-Rects(top) == {<<l, top, r, top + h>> : <<l, r>> \in {lr \in (0..XMax) \X (0..XMax) : lr[1] < lr[2]}, h \in Heights}
+Rects(top) == {<<l, top, r, top + h>> : <<l, r>> \in {lr \in (XOff..(XOff + XMax)) \X (XOff..(XOff + XMax)) : lr[1] < lr[2]}, h \in Heights}
 Init == rs = <<>> /\ s = None /\ e = None /\ pc = "build"
 AddRect == /\ pc = "build" /\ Len(rs) < MaxRects
-           /\ \E q \in Rects(IF rs = <<>> THEN 0 ELSE rs[Len(rs)][4]) :
+           /\ \E q \in Rects(IF rs = <<>> THEN YOff ELSE rs[Len(rs)][4]) :
                  /\ WellFormed(Append(rs, q))
                  /\ rs' = Append(rs, q)
            /\ UNCHANGED <<s, e, pc>>
